@@ -1,5 +1,5 @@
 #!/usr/bin/env python3
-"""writes seeded/README.md: one row per seeded change (both waves) with what it needs and what the checks reported in each
+"""writes seeded/README.md: one row per seeded change (all waves) with what it needs and what the checks reported in each
 recorded batch run (seeded/results_*.json, produced by tools/run_seeded.py)"""
 import json, glob, os
 ROOT = os.path.dirname(os.path.dirname(os.path.abspath(__file__)))
@@ -7,7 +7,7 @@ S = os.path.join(ROOT, 'seeded')
 runs = {}
 for f in sorted(glob.glob(os.path.join(S, 'results_*.json'))):
     name = os.path.basename(f)[len('results_'):-len('.json')]
-    wave = 'w2-' if 'wave2' in name else ('w3-' if 'wave3' in name else '')
+    wave = next((f'w{k}-' for k in (2, 3, 4, 5, 6) if f'wave{k}' in name), '')
     for r in json.load(open(f)):
         q = r.get('quick', {}); t = r.get('thorough', {})
         if not r.get('detected'):
